@@ -78,6 +78,12 @@ theorem fact_latest_is_highest_version :
 theorem fact_create_checks_subject_inside_transaction :
     Facts.C13.createChecksSubjectInsideTransaction = true ∧ Facts.C13.createSubjectChecksOutsideTransaction = [] := by decide
 
+/-- manager.go `transactionHelper`: the change records are saved with the TRANSACTION handle (`tx.Save(&e)`) inside the
+    closure of the first `r.DB.Transaction`, in a loop over `changes`; nothing is saved outside a transaction closure.
+    Versions and change records are therefore written by one atomic step (`tx1` returns both; `Fault.inTx1`). -/
+theorem fact_change_records_saved_inside_first_transaction :
+    Facts.C13.changeLogSavedInsideFirstTransaction = true ∧ Facts.C13.savesOutsideTransaction = [] := by decide
+
 /-- the configuration the source describes today -/
 def cfgNow (methods : List Method) : Cfg :=
   { methods := methods
@@ -215,7 +221,32 @@ theorem subject_unique (hfix : Fixed cfg) (hms : cfg.methods.Nodup) {w : World} 
   · rintro s order f ⟨r, hr, hs⟩
     have : subjectExists w s = true := by
       simp only [subjectExists, List.any_eq_true, decide_eq_true_eq]; exact ⟨r, hr, hs⟩
-    simp [stepOp, tx1, tx1Create, this]
+    simp [stepOp, stepOpCore, tx1, tx1Create, this]
+
+/-- **the first step is atomic over {versions, change records}**: a DB error or a process stop while the change records
+    are being written (any position) leaves the database exactly as it was — no version without a change record exists
+    that the sweep could not find -/
+theorem first_transaction_is_atomic (w : World) (o : Op) (order : List Method) (k : Nat) {w1 : World} {chs : List Change}
+    (ht : tx1 cfg w o = .ok (w1, chs)) (hk : k < chs.length) :
+    stepOp cfg w o order (.logFail k) = (w, "err:injected") ∧ stepOp cfg w o order (.logStop k) = (w, "stopped") := by
+  unfold stepOp
+  rw [ht]
+  simp [Fault.inTx1, hk]
+
+/-- its hypotheses are satisfiable: a create on two methods writes two change records -/
+example : ∃ w1 chs, tx1 (cfgNow [.nuts, .web]) {} (.create "s") = .ok (w1, chs) ∧ 1 < chs.length := ⟨_, _, rfl, by decide⟩
+
+/-- … and what the change records are for: if the versions were committed WITHOUT their change records (the records
+    written after the transaction and lost in a stop), the sweep has nothing to look at — the new version stays in SQL on
+    every DID although nothing was published (witness for the non-atomic variant; `pending := none` = record lost) -/
+theorem versions_without_change_records_are_never_rolled_back :
+    let cfg := cfgNow [.nuts, .web]
+    let w0 := (stepOp cfg {} (.create "s") [.nuts, .web] .none).1
+    ∃ w1 chs, tx1 cfg w0 (.addSvc "s" "A") = .ok (w1, chs) ∧
+      let lost : World := { w1 with dids := w1.dids.map (fun r => { r with vers := r.vers.map (fun v => { v with pending := none }) }) }
+      let w2 := (sweep cfg id (tick 61 lost)).1
+      w2.dids.map (fun r => r.vers.map (·.c.svcs)) = [[["A"], []], [["A"], []]] ∧
+      (pubLatest w2.pub 0).map (·.svcs) = some [] ∧ logCount w2 = 0 := ⟨_, _, rfl, by decide⟩
 
 /-- `Create` = existence check + write in ONE atomic step. Every interleaving of requests whose steps are atomic is a
     sequence of `stepOp`s, so `subject_unique` (over `Reach`) covers any number of concurrent Creates of one name:
@@ -278,12 +309,14 @@ theorem all_or_nothing (hfix : Fixed cfg) (hms : cfg.methods.Nodup) {w : World} 
 /-- **a failed commit is undone at once**: when a Commit fails, the clean-up transaction restores exactly the rows
     from before the operation (no version, no DID, no change record of the attempt is left) -/
 theorem failed_commit_restores (hfix : Fixed cfg) (hms : cfg.methods.Nodup) {w : World} (h : Reach cfg w)
-    (o : Op) (order : List Method) (f : Fault) (hc : Clean w.dids o.subject) {w1 : World} {chs : List Change} {e : String}
+    (o : Op) (order : List Method) (f : Fault) (hf : ∀ n, f.inTx1 n = none) (hc : Clean w.dids o.subject)
+    {w1 : World} {chs : List Change} {e : String}
     (ht : tx1 cfg w o = .ok (w1, chs)) (hph : (commitLoop f chs order 0 w1.pub).2 = .failed e) :
     (stepOp cfg w o order f).1.dids = w.dids ∧ (stepOp cfg w o order f).2 = "err:" ++ e := by
   have hi := reach_inv hfix hms h
   have ht1 := tx1_ok hms hi hc ht
-  unfold stepOp
+  rw [stepOp_eq_core hf]
+  unfold stepOpCore
   rw [ht]
   simp only
   rcases hcl : commitLoop f chs order 0 w1.pub with ⟨pub, ph⟩
@@ -317,7 +350,10 @@ theorem stopped_operation_resolved (hfix : Fixed cfg) (hms : cfg.methods.Nodup) 
         pubLatest w2.pub r.id = some v.c)) ∧
     w2.pub = wStop.pub := by
   intro wStop w2
-  have hs : wStop = { w1 with pub := (commitLoop (.stop k) chs order 0 w1.pub).1 } := stepOp_stopped order k ht hph
+  have hs : wStop = { w1 with pub := (commitLoop (.stop k) chs order 0 w1.pub).1 } := by
+    show (stepOp cfg w0 o order (.stop k)).1 = _
+    rw [stepOp_eq_core (f := .stop k) (fun _ => rfl)]
+    exact stepOpCore_stopped order k ht hph
   have := stopped_then_swept hfix hms (reach_inv hfix hms h) hnone ht (commitLoop (.stop k) chs order 0 w1.pub).1 d hd ord hord
   simp only [w2, hs]
   refine ⟨?_, this.2⟩
@@ -356,9 +392,10 @@ theorem abandoned_keys_unpublished_partial (hfix : Fixed cfg) (hms : cfg.methods
   have hi := reach_inv hfix hms h
   constructor
   · intro e hc hph
-    refine ⟨(failed_commit_restores hfix hms h o order .failNuts hc ht hph).1, ?_⟩
+    refine ⟨(failed_commit_restores hfix hms h o order .failNuts (fun _ => rfl) hc ht hph).1, ?_⟩
     have ht1 := tx1_ok hms hi hc ht
-    unfold stepOp
+    rw [stepOp_eq_core (f := .failNuts) (fun _ => rfl)]
+    unfold stepOpCore
     rw [ht]
     simp only
     rcases hcl : commitLoop .failNuts chs order 0 w1.pub with ⟨pub, ph⟩
@@ -393,7 +430,10 @@ theorem abandoned_keys_unpublished_partial (hfix : Fixed cfg) (hms : cfg.methods
       · exact Or.inr ⟨0, hk, Nat.le_refl _⟩
     have hres := stopped_operation_resolved hfix hms h hnone ht order 0 hstop d hd ord hord
     have hclean : Clean w.dids o.subject := fun r hr _ v hv => hnone r hr v hv
-    have hs : wStop = { w1 with pub := (commitLoop (.stop 0) chs order 0 w1.pub).1 } := stepOp_stopped order 0 ht hstop
+    have hs : wStop = { w1 with pub := (commitLoop (.stop 0) chs order 0 w1.pub).1 } := by
+      show (stepOp cfg w o order (.stop 0)).1 = _
+      rw [stepOp_eq_core (f := .stop 0) (fun _ => rfl)]
+      exact stepOpCore_stopped order 0 ht hstop
     have hp0 : wStop.pub = w.pub := by
       rw [hs]
       show (commitLoop (.stop 0) chs order 0 w1.pub).1 = w.pub
